@@ -10,7 +10,9 @@ NS = "EngineModel.Properties.C15TracksV2."
 LEAN_MODULES = ["Properties.C15TracksV2"]
 THEOREMS = [NS + t for t in [
     "v2t_C15_no_ub", "v2t_C15_invariant", "v2t_C15_empty", "v2t_C15_reachable_no_ub", "v2t_C15_setter_any_row",
-    "v2t_C15_slot_any_index", "v2t_C15_write_any_snapshot", "v2t_C15_stale_handle"]]
+    "v2t_C15_slot_any_index", "v2t_C15_write_any_snapshot", "v2t_C15_stale_handle_one_step", "v2t_C15_stale_handle",
+    "v2t_C15_stale_handle_reachable", "v2t_C15_duration_overflow_counterexample", "v2t_C15_guarded_step",
+    "v2t_C15_guarded_reachable_no_ub", "v2t_C15_sites", "v2t_C15_guard_dropped_counterexample"]]
 ASSUMPTIONS = [
     "tracks 2.x: the model (EngineModel/TracksV2, tied by C01/C06 and again here) makes these undefined-behaviour "
     "sources explicit: vector index in hot_cue_at / set_hot_cue_at / loop_at / set_loop_at and in the waveform "
